@@ -484,6 +484,14 @@ def check(prop, tier, seed):
                        "payload identity is observed through generated glue (Pay::show) that reads the payload value",
                        "grammars: classics + seeded sample of the universes; inputs: ALL strings up to n tokens (n reduced per grammar when it has many terminals), each with two payload assignments"]
     longer_inputs(prop, tier, seed, run, wd)
+    # scale regime: tagged unions of the small grammars (hundreds of states and terminals), oracle lifted by Union.tla
+    import scale, sys
+    scale.run(prop, tier, seed, cases, preds, run, wd, sys.modules[__name__])
+    if prop == "C01" and not os.environ.get("VERIF_SKIP_MC"):
+        ru = common.tlc_ok("MC_Union", env={"UNIVERSE": "U1", "SLICE": 2 if tier == "quick" else 12, "MAXLEN": 2 if tier == "quick" else 3},
+                           workers=12, timeout=6000)
+        run.add_tlc(ru)
+        run.notes["MC_Union"] = {"pairs": ru.distinct}
     if not os.environ.get("VERIF_SKIP_MC"):
         liveness(tier, run, wd, cases)
     return run.finish()
@@ -683,12 +691,24 @@ def replay(prop, path):
     c = {"G": case["grammar"], "pres": pres, "src": case["src"], "origin": "replay"}
     run = common.Run(prop, "quick", case.get("seed", 1))
     wd = common.workdir("emitted_replay_%s" % prop)
+    common.build_harness()
     pipeline.run_real([c], want=("grammar", "rust"))
     if c["resp"]["res"]["t"] != "ok":
         log("generate no longer accepts this grammar: %s" % json.dumps(c["resp"]["res"])[:300])
         return 0
     c["rust"] = c["resp"]["res"]["rust"]
     w, ids = case["input"], case["payload_ids"]
+    if case.get("kind") == "emitted-run-scale":
+        # the expected line was lifted from the component's prediction (Union.tla) when the case was found; the grammar is far
+        # too large for MC_Driver, so the replay compares the real parser's answer with that line
+        outs, err = build_and_run_robust([c], [(0, [(pres["ts"].index(x), i) for x, i in zip(w, ids)])], os.path.join(wd, "crate"), prop, run)
+        if outs is None:
+            raise ToolError(err[:3000])
+        log("expected: %s\nobserved: %s" % (case["expected"], outs[0]))
+        if outs[0] != case["expected"]:
+            print("VIOLATION property=%s replay=%s" % (prop, path))
+            return 1
+        return 0
     preds, _ = predictions([c], max(1, len(w)), wd, run, tag="replay")
     outs, err = build_and_run([c], [(0, [(pres["ts"].index(x), i) for x, i in zip(w, ids)])], os.path.join(wd, "crate"))
     if outs is None:
